@@ -127,6 +127,10 @@ def mutated_anywhere(R, module, name):
                 return "%s() in %s" % (q.attr_call(n)[1], f.qualname)
             if isinstance(n, ast.Attribute) and isinstance(n.ctx, ast.Store) and q.dotted(n.value) in refs:
                 return "attribute store in %s" % f.qualname
+            # the object escapes into a field of another object (self.hook = _shared_hook): whoever holds that object can change it -
+            # an event hook subscribed to through one thread's scheduler is the same hook for every thread's scheduler
+            if isinstance(n, ast.Assign) and isinstance(n.value, ast.Name) and n.value.id in refs and any(isinstance(t, ast.Attribute) for t in n.targets):
+                return "handed out as %s in %s (anything done to that field is done to the one shared object)" % (q.src([t for t in n.targets if isinstance(t, ast.Attribute)][0]), f.qualname)
     return None
 
 
@@ -347,6 +351,49 @@ def run(R):
             R.violation("C16.STATE", "%s:%s.%s" % (f.qualname, recv, attr), R.site(f, node),
                         "%s assigns the process-wide option %s.%s: every thread's scheduler reads the forced value for as long as it is in place (its per-step "
                         "dependency reset, what its batches keep), and two overlapping save/restore pairs can leave it set" % (f.qualname, recv, attr))
+    # ---- a task (or any future) belongs to the thread whose scheduler created it.  A table that outlives the call - a closure variable of
+    # a decorator, a field - may hold tasks only under a key that contains the calling thread (the deduplicate table; decided above);
+    # an in-flight table keyed by the arguments alone hands one thread's suspended task to another thread, whose scheduler then
+    # continues it and flushes the first thread's batches
+    tm = repo.modules.get("tools")
+    n_tab = 0
+    if tm is not None:
+        for f0 in tm.functions.values():
+            stack = [f0]
+            while stack:
+                f = stack.pop()
+                stack += list(f.nested.values())
+                local_stores = set(x.id for x in q.scope_nodes(f.node) if isinstance(x, ast.Name) and isinstance(x.ctx, ast.Store)) | set(q.param_names(f.node))
+                # names in f bound (here or in an enclosing function) to `<something>.asynq`: calling them creates a task
+                makers = set()
+                g = f
+                while g is not None:
+                    for x in q.scope_nodes(g.node):
+                        if isinstance(x, ast.Assign) and isinstance(x.value, ast.Attribute) and x.value.attr == "asynq":
+                            makers.update(t.id for t in x.targets if isinstance(t, ast.Name))
+                    g = g.parent
+
+                def makes_task(v):
+                    return isinstance(v, ast.Call) and ((isinstance(v.func, ast.Name) and v.func.id in makers) or (isinstance(v.func, ast.Attribute) and v.func.attr == "asynq"))
+                for x in q.scope_nodes(f.node):
+                    if not isinstance(x, ast.Assign):
+                        continue
+                    subs = [t for t in x.targets if isinstance(t, ast.Subscript) and isinstance(t.value, ast.Name) and t.value.id not in local_stores]
+                    if not subs:
+                        continue
+                    v = x.value
+                    task_like = makes_task(v) or (isinstance(v, ast.Name) and any(k_ == "expr" and makes_task(e_) for k_, e_ in common.assigned_values(f.node, v.id)))
+                    n_tab += 1
+                    if not task_like:
+                        continue
+                    keysrc = q.src(subs[0].slice)
+                    keyvals = [q.src(e_) for k_, e_ in common.assigned_values(f.node, keysrc)] if keysrc.isidentifier() else [keysrc]
+                    threaded = any("current_thread" in kv or "get_ident" in kv for kv in keyvals)
+                    R.check(threaded, "C16.NO-CACHE", "%s:%s" % (f.qualname, q.src(subs[0])[:30]), R.site(f, x),
+                            "a task is stored in the shared table %s only under a key that contains the calling thread" % subs[0].value.id,
+                            "%s stores a task in `%s`, a table shared by all threads that call the decorated function, under a key without the calling thread: a second "
+                            "thread asking for the same key is handed the first thread's suspended task - its scheduler continues it and flushes the first thread's "
+                            "batches on the wrong thread" % (f.qualname, q.src(subs[0])[:40]))
     R.require_min("C16.STATE", 60)
     R.require_min("C16.HOLDER", 6)
 
